@@ -292,6 +292,19 @@ def wrapper_prog(path, sym):
     return "[\n" + ",\n".join(rows) + "]", stuck
 
 
+BODIES = [("internal/bytealg/indexbyte_go122_amd64.s", "indexbytebody"),
+          ("internal/bytealg/indexbyte_go122_amd64.s", "indexbytebodyCase"),
+          ("internal/bytealg/index_non_ascii_go122_amd64.s", "indexByteBodyNonASCII"),
+          ("internal/bytealg/count_go122_amd64.s", "countbody"),
+          ("internal/bytealg/count_go122_amd64.s", "countbodyCase")]
+WRAPPERS = [("internal/bytealg/indexbyte_go122_amd64.s", "IndexByte"),
+            ("internal/bytealg/indexbyte_go122_amd64.s", "IndexByteString"),
+            ("internal/bytealg/index_non_ascii_go122_amd64.s", "IndexByteNonASCII"),
+            ("internal/bytealg/index_non_ascii_go122_amd64.s", "IndexNonASCII"),
+            ("internal/bytealg/count_go122_amd64.s", "Count"),
+            ("internal/bytealg/count_go122_amd64.s", "CountString")]
+
+
 def lean_int(i):
     return str(i) if i >= 0 else "(%d)" % i
 
@@ -314,25 +327,33 @@ def main():
     w.append(",\n".join(rows))
     w.append("]")
     # the whole bodies (all labels; the AVX2 code is outside the modelled subset and appears as .STUCK)
-    for f, sym in [("internal/bytealg/indexbyte_go122_amd64.s", "indexbytebody"),
-                   ("internal/bytealg/indexbyte_go122_amd64.s", "indexbytebodyCase"),
-                   ("internal/bytealg/index_non_ascii_go122_amd64.s", "indexByteBodyNonASCII"),
-                   ("internal/bytealg/count_go122_amd64.s", "countbody"),
-                   ("internal/bytealg/count_go122_amd64.s", "countbodyCase")]:
+    for f, sym in BODIES:
         lit, stuck = body_prog(os.path.join(repo, f), sym)
         w.append("open _root_.Asm.Instr _root_.Asm.Reg _root_.Asm.XReg in")
         w.append("/-- %d instructions outside the modelled subset -/" % stuck)
         w.append("def body_%s : _root_.Asm.Prog := %s" % (sym, lit))
-    for f, sym in [("internal/bytealg/indexbyte_go122_amd64.s", "IndexByte"),
-                   ("internal/bytealg/indexbyte_go122_amd64.s", "IndexByteString"),
-                   ("internal/bytealg/index_non_ascii_go122_amd64.s", "IndexByteNonASCII"),
-                   ("internal/bytealg/index_non_ascii_go122_amd64.s", "IndexNonASCII"),
-                   ("internal/bytealg/count_go122_amd64.s", "Count"),
-                   ("internal/bytealg/count_go122_amd64.s", "CountString")]:
+    for f, sym in WRAPPERS:
         lit, stuck = wrapper_prog(os.path.join(repo, f), sym)
         w.append("open _root_.Asm.Instr _root_.Asm.Reg _root_.Asm.XReg in")
         w.append("/-- ABI wrapper; %d instructions outside the modelled subset -/" % stuck)
         w.append("def wrap_%s : _root_.Asm.Prog := %s" % (sym, lit))
+    # the copies built by toolchains before go1.22 (//go:build amd64 && !go1.22): same translation, separate names;
+    # C13.pre122_same states that they are the very same programs
+    old = {"indexbyte_go122_amd64.s": "indexbyte_amd64.s", "count_go122_amd64.s": "count_amd64.s",
+           "index_non_ascii_go122_amd64.s": "index_non_ascii_amd64.s"}
+    pairs = []
+    for f, sym in BODIES:
+        lit, stuck = body_prog(os.path.join(repo, os.path.dirname(f), old[os.path.basename(f)]), sym)
+        w.append("open _root_.Asm.Instr _root_.Asm.Reg _root_.Asm.XReg in")
+        w.append("def pre122_body_%s : _root_.Asm.Prog := %s" % (sym, lit))
+        pairs.append(("pre122_body_%s" % sym, "body_%s" % sym))
+    for f, sym in WRAPPERS:
+        lit, stuck = wrapper_prog(os.path.join(repo, os.path.dirname(f), old[os.path.basename(f)]), sym)
+        w.append("open _root_.Asm.Instr _root_.Asm.Reg _root_.Asm.XReg in")
+        w.append("def pre122_wrap_%s : _root_.Asm.Prog := %s" % (sym, lit))
+        pairs.append(("pre122_wrap_%s" % sym, "wrap_%s" % sym))
+    w.append("/-- (program of the pre-go1.22 file, program of the go1.22 file) for every body and wrapper -/")
+    w.append("def pre122_pairs : List (_root_.Asm.Prog × _root_.Asm.Prog) := [%s]" % ", ".join("(%s, %s)" % p for p in pairs))
     w.append("end Gen.Asm")
     text = "\n".join(w) + "\n"
     if not (os.path.exists(out) and open(out).read() == text):
